@@ -140,4 +140,21 @@ PROPS = {
             "(the code keeps the old cached length; the property does not say) - the model reproduces it",
         ],
     },
+    "C10": {
+        "harness": [{"cmd": "c10", "n": {"quick": 400, "thorough": 12000}, "extra": ["-per", "40"]}],
+        "rule": "random 1-4 row x 1-7 column alignments x a fresh 63-bit seed x one of ShuffleSequences, BuildBootstrap "
+                "(fractions 0..1 and 3/2), RandSubAlign (both modes, lengths -1..L+1), Sample (-1..n+1), ShuffleSites, "
+                "Swap (random / fixed position), Recombine, AddGaps, Mutate, SimulateRogue with dyadic rates at and "
+                "inside the borders; the implementation runs after rand.Seed(seed) - twice, for replay - and the model "
+                "runs on the first 160 raw Int63 values of rand.NewSource(seed); results must be identical; "
+                "non-trivial = every case (each exercises a distinct seed); distinct = distinct (seed, op, input)",
+        "nontrivial": lambda m: True,
+        "assumptions": [
+            "math/rand's generator is not modelled: operations are functions of the raw Int63 stream; Go documents that "
+            "rand.Seed(s) makes the global functions produce the stream of rand.New(rand.NewSource(s))",
+            "rates are dyadic rationals so that int(rate*float64(n)) and Float64() <= rate are exact",
+            "the remaining invariants (permutation / multiset / partition clauses) are judged per generated case by the "
+            "spec oracle, not proved",
+        ],
+    },
 }
